@@ -1,10 +1,10 @@
 SPECIFICATION Spec
 CONSTANTS
-  Nodes = {"A", "B", "C"}
-  Ids = {"s1"}
+  Nodes = {"A", "B"}
+  Ids = {"s1", "s2"}
   Retention = 1
-  MaxTime = 4
-  MaxNet = 2
+  MaxTime = 3
+  MaxNet = 1
   CreateLen = 2
 VIEW View
 CONSTRAINT Bound
